@@ -779,13 +779,8 @@ func ruleRangeAlg(p *Prog, r *Result) {
 				}
 				// a half-bounded range never carries the empty string: the atom handlers turn
 				// `key > ''` into FULL and `key < ''` into EMPTY; only BETWEEN can name ''
-				for _, pr := range [][2]int{{0, 1}, {2, 3}} {
-					if nilMask[pr[0]] != nilMask[pr[1]] {
-						if (!nilMask[pr[0]] && rank[pr[0]] == 0) || (!nilMask[pr[1]] && rank[pr[1]] == 0) {
-							skip = true
-						}
-					}
-				}
+				// (the union handlers do produce them: `key = '' | key >= 'b'` is RANGE['', nil), so half-bounded
+				// ranges carrying the empty string are part of the domain)
 				if skip {
 					continue
 				}
@@ -807,7 +802,7 @@ func ruleRangeAlg(p *Prog, r *Result) {
 					errs = append(errs, desc+": "+it.err)
 					continue
 				}
-				if bothNilRange(res[0], sc) {
+				if bothNilRange(res[0], sc) || it.reversedRange(res[0], sc) {
 					open2 = append(open2, desc)
 				}
 				kind, regs, ok := it.decodeScan(res[0], sc)
@@ -878,9 +873,6 @@ func ruleRangeAlg(p *Prog, r *Result) {
 					if !nilMask[0] && !nilMask[1] && rank[0] > rank[1] {
 						skip = true
 					}
-					if nilMask[0] != nilMask[1] && ((!nilMask[0] && rank[0] == 0) || (!nilMask[1] && rank[1] == 0)) {
-						skip = true
-					}
 					if skip {
 						continue
 					}
@@ -908,7 +900,7 @@ func ruleRangeAlg(p *Prog, r *Result) {
 						errs = append(errs, desc+": "+it.err)
 						continue
 					}
-					if bothNilRange(res[0], sc) {
+					if bothNilRange(res[0], sc) || it.reversedRange(res[0], sc) {
 						open2 = append(open2, desc)
 					}
 					kind, regs, ok := it.decodeScan(res[0], sc)
@@ -1286,12 +1278,6 @@ func rulePrefixAlg(p *Prog, r *Result) {
 						if !mask[s] && !mask[e] && rep[s] > rep[e] {
 							return false // well-formed ranges
 						}
-						if mask[s] != mask[e] {
-							// a half-bounded range never carries the empty string (RANGEALG)
-							if (!mask[s] && rep[s] == "") || (!mask[e] && rep[e] == "") {
-								return false
-							}
-						}
 					}
 				}
 				return true
@@ -1367,7 +1353,7 @@ func rulePrefixAlg(p *Prog, r *Result) {
 						extra = fmt.Sprintf("key %q", pc.rep[n])
 					}
 				}
-				if bothNilRange(res[0], sc) {
+				if bothNilRange(res[0], sc) || it.reversedRange(res[0], sc) {
 					a.open2 = append(a.open2, desc)
 				}
 				kind, _, _ := it.decodeScanKind(res[0], sc)
@@ -1390,7 +1376,7 @@ func rulePrefixAlg(p *Prog, r *Result) {
 		sort.Strings(a.unsound)
 		sort.Strings(a.loose)
 		r.note(nm+"_structures", a.n)
-		r.add(len(a.open2) == 0, nm+"|closed", a.pos, fmt.Sprintf("the result is never a range open on both sides; %d counter-structures %v", len(a.open2), head(a.open2, 3)))
+		r.add(len(a.open2) == 0, nm+"|closed", a.pos, fmt.Sprintf("the result is never a range open on both sides nor one with start > end; %d counter-structures %v", len(a.open2), head(a.open2, 3)))
 		r.add(len(a.errs) == 0, nm+"|interpretable", a.pos, fmt.Sprintf("%d operand structures evaluated; %d outside the abstract domain %v", a.n, len(a.errs), head(a.errs, 2)))
 		r.add(len(a.unsound) == 0, nm+"|sound", a.pos, fmt.Sprintf("result contains every key of the %s of the operands in all %d structures; %d counter-structures %v", map[string]string{"and": "intersection", "or": "union"}[a.mode], a.n, len(a.unsound), head(a.unsound, 3)))
 		if a.mode == "and" {
@@ -1503,11 +1489,6 @@ func ruleScanAlg(p *Prog, r *Result) {
 								if !mask[s] && !mask[e] && rep[s] > rep[e] {
 									return false
 								}
-								if mask[s] != mask[e] {
-									if (!mask[s] && rep[s] == "") || (!mask[e] && rep[e] == "") {
-										return false
-									}
-								}
 								return true
 							}
 							return chk(0, ls) && chk(ls.nsym, rs)
@@ -1603,7 +1584,7 @@ func ruleScanAlg(p *Prog, r *Result) {
 									extra = fmt.Sprintf("key %q", pc.rep[nsym])
 								}
 							}
-							if bothNilRange(res[0], sc) {
+							if bothNilRange(res[0], sc) || it.reversedRange(res[0], sc) {
 								open2 = append(open2, desc)
 							}
 							kind, _, _ := it.decodeScanKind(res[0], sc)
@@ -1659,6 +1640,32 @@ func relGroupsU(n int, admit func(rep []string) bool, small bool) ([]*relCfg, ma
 // bothNilRange: the abstract *ScanType is a RANGE whose two bounds are nil. No function of the
 // algebra may produce it: the domains of RANGEALG / PREFIXALG / SCANALG leave it out as an
 // operand, which is only justified if it never arises (closed domain).
+// reversedRange: a RANGE whose two bounds are both present with start > end (the union and intersection handlers
+// assume start <= end for their operands; the evaluators of BETWEEN fail on such boundaries).
+func (it *ainterp) reversedRange(v av, sc map[string]int64) bool {
+	if v.k != akPtr || v.obj == nil || len(v.obj.elems) < 2 || v.obj.elems[0].i != sc["RANGE"] {
+		return false
+	}
+	keys := v.obj.elems[1]
+	if keys.k != akSlice || keys.obj == nil || keys.hi-keys.lo != 2 {
+		return false
+	}
+	ks := keys.obj.elems[keys.lo:keys.hi]
+	if ks[0].isNil || ks[1].isNil || ks[0].k != akBytes || ks[1].k != akBytes {
+		return false
+	}
+	rk := func(a av) int {
+		if a.emptyStr {
+			return 0
+		}
+		if a.sym >= 0 && a.sym < len(it.cfg.rank) {
+			return it.cfg.rank[a.sym]
+		}
+		return 0
+	}
+	return rk(ks[0]) > rk(ks[1])
+}
+
 func bothNilRange(v av, sc map[string]int64) bool {
 	if v.k != akPtr || v.obj == nil || len(v.obj.elems) < 2 || v.obj.elems[0].i != sc["RANGE"] {
 		return false
@@ -1797,7 +1804,7 @@ func ruleAtomAlg(p *Prog, r *Result) {
 					errs = append(errs, desc+": "+it.err)
 					continue
 				}
-				if bothNilRange(res[0], sc) {
+				if bothNilRange(res[0], sc) || it.reversedRange(res[0], sc) {
 					open2 = append(open2, desc)
 				}
 				allLits := listCodes != "" && strings.Trim(listCodes, "S") == ""
@@ -1901,6 +1908,6 @@ func ruleAtomAlg(p *Prog, r *Result) {
 	r.add(len(errs) == 0, "optimizeExpr|interpretable", p.Pos(fn.Pos()), fmt.Sprintf("%d atom configurations evaluated; %d outside the abstract domain %v", n, len(errs), head(errs, 3)))
 	r.add(len(unsound) == 0, "optimizeExpr|sound", p.Pos(fn.Pos()), fmt.Sprintf("the region of an atom contains every key on which the atom can be true, in all %d configurations; %d counter-configurations %v", n, len(unsound), head(unsound, 4)))
 	r.add(len(loose) == 0, "optimizeExpr|tight", p.Pos(fn.Pos()), fmt.Sprintf("key-pinning atoms read nothing outside the pinned region and use point reads for equality and IN, in all %d configurations; %d counter-configurations %v", n, len(loose), head(loose, 4)))
-	r.add(len(open2) == 0, "optimizeExpr|closed", p.Pos(fn.Pos()), fmt.Sprintf("no atom yields a range open on both sides (the algebra's domain leaves it out); %d counter-configurations %v", len(open2), head(open2, 3)))
+	r.add(len(open2) == 0, "optimizeExpr|closed", p.Pos(fn.Pos()), fmt.Sprintf("no atom yields a range open on both sides or with start > end (the algebra's domain leaves them out); %d counter-configurations %v", len(open2), head(open2, 3)))
 	r.floor("atom configurations evaluated", n, 500)
 }
